@@ -16,9 +16,9 @@ From Coq Require Import ZArith List Bool Arith.
 Import ListNotations.
 Open Scope Z_scope.
 
-Inductive dtype := I2 | F4 | F8.
+Inductive dtype := I2 | F4 | F8 | F2 | C8.     (* int16, float32, float64, float16, complex64 (np.inexact) *)
 Definition dtype_eqb (a b : dtype) : bool :=
-  match a, b with I2, I2 | F4, F4 | F8, F8 => true | _, _ => false end.
+  match a, b with I2, I2 | F4, F4 | F8, F8 | F2, F2 | C8, C8 => true | _, _ => false end.
 Definition is_float (d : dtype) : bool := match d with I2 => false | _ => true end.
 
 Definition size (sh : list nat) : nat := fold_right Nat.mul 1%nat sh.
